@@ -128,12 +128,17 @@ class ImmuneSystem:
                 violations=[],
             )
 
-        # Check memory for known threats
-        recalled = self.memory.recall_by_hashes(
-            agent_id=agent_id,
-            vocabulary_hash=peptide.vocabulary_hash,
-            structure_hash=peptide.structure_hash,
-        )
+        # Check memory for known threats. A remembered threat only confirms a
+        # current anomaly: it is honoured while the fingerprint violates the
+        # trained baseline (Signal 1) and the watcher is not anergic, so that
+        # behaviour back inside the baseline (e.g. after retraining) is clear.
+        recalled = None
+        if not tcell.is_anergic and tcell.profile.check(peptide):
+            recalled = self.memory.recall_by_hashes(
+                agent_id=agent_id,
+                vocabulary_hash=peptide.vocabulary_hash,
+                structure_hash=peptide.structure_hash,
+            )
 
         if recalled is not None:
             # Known threat - fast response
